@@ -25,8 +25,9 @@
 (*                                                                         *)
 (* "discord": at some clip an edge of positive length of the current cell   *)
 (* lay exactly in the new plane and the code removed one endpoint and kept  *)
-(* the other.  The new vertex is then the intersection of three planes      *)
-(* through a common line: known finding F2 (robustness of the builder on    *)
+(* the other (or the edge has length zero - two coincident vertices - and    *)
+(* its supporting line lies in the new plane).  The new vertex is then the   *)
+(* intersection of three planes through a common line: known finding F2 (robustness of the builder on    *)
 (* exactly degenerate inputs); everything the code reports for that cell    *)
 (* afterwards is attributed to it.                                          *)
 (***************************************************************************)
@@ -166,8 +167,13 @@ TClipFail ==
        ELSE LET q == CandOf(Line)
                 p == CandPlane(q)
                 R == RemovedOf(Line)
+                \* the new vertex of a boundary edge whose supporting line lies in the new plane (also when the edge has
+                \* length zero: two coincident vertices of which one was removed) is the intersection of three dependent planes
+                pi == Len(planes) + 1
+                ps2 == Append(planes, NgbDesc(q, p))
+                dep == \E e \in BoundaryEdges(R) : ~IndependentAt(ps2, <<e[1], e[2], pi>>)
             IN /\ mode' = "skip"
-               /\ why' = IF q \in Cands /\ Discord(p, R) THEN "discord" ELSE "panic inside a clip without a split edge in the plane"
+               /\ why' = IF q \in Cands /\ (Discord(p, R) \/ dep) THEN "discord" ELSE "panic inside a clip without a split edge in the plane"
 
 \* What the finished cell must look like.
 FinalChecks(ln) ==
